@@ -3,6 +3,7 @@ import storecheck
 
 PLAN = {
     "api": True,
+    "lin": True,
     "mc": [("StoreMC_acct.cfg", False), ("StoreMC_exp_small.cfg", False), ("StoreMC_exp.cfg", True)],
     "sims": [("StoreSim_acct.cfg", 250, 2000, 61), ("StoreSim_seq.cfg", 150, 1200, 91)],
     "drivers": [("TestVerif_StoreFree", 6, 40, "store_free.ndjson", None), ("TestVerif_StoreTime", 40, 400, "store_time.ndjson", None)],
